@@ -1,6 +1,8 @@
 package c14
 
 import (
+	"Havoc/pkg/profile/yaotl/gohcl"
+	"Havoc/pkg/profile/yaotl/hclwrite"
 	"encoding/hex"
 	"encoding/json"
 	"fmt"
@@ -188,6 +190,16 @@ func (e *env) build(rng *rand.Rand, v reflect.Value, plain bool, override, ovSpe
 	return built{text: text, doc: doc, spells: b.spells, nblocks: b.nblocks}
 }
 
+// encodeSig: signature of a round-trip finding on the encoder's output. The writer builds
+// labels through the value library as well, so its NFC normalisation (known for values on
+// the load path) reaches labels here.
+func encodeSig(f finding) string {
+	if f.kind == "label" && f.d != nil && f.d.expS != f.d.obsS && norm.NFC.String(f.d.expS) == f.d.obsS {
+		return "encode-roundtrip:label:nfc-normalised"
+	}
+	return "encode-" + f.sig
+}
+
 func (e *env) checkRoundtrip(bt built, v reflect.Value) ([]finding, loadResult) {
 	res := loadProfile(e.path, bt.text)
 	var attrs []*attrNode
@@ -310,6 +322,36 @@ func run(c *lib.Ctx) {
 				}
 			}
 			e.reportRoundtrip(f, bt, v, res, seed)
+		}
+		if i%3 == 0 {
+			// the same configuration written by the tree's own encoder (gohcl.EncodeIntoBody into
+			// an empty file) instead of the harness' printer
+			var enc []byte
+			pv, st := lib.Guard(func() {
+				f := hclwrite.NewEmptyFile()
+				gohcl.EncodeIntoBody(v.Addr().Interface(), f.Body())
+				enc = f.Bytes()
+			})
+			c.Observe("profiles-written-by-gohcl-encode", 1)
+			if pv != nil {
+				c.Violation("encode:"+lib.PanicSig(pv, st), fmt.Sprintf("gohcl.EncodeIntoBody panics on a valid configuration: %v", pv),
+					witness{Mode: "encode", Expected: encodeValue(v), CaseSeed: seed})
+			} else {
+				eres := loadProfile(e.path, enc)
+				for _, f := range e.judgeRoundtrip(enc, v, nil, eres, nil) {
+					f.sig = encodeSig(f)
+					minimised[f.sig]++
+					if minimised[f.sig] > 3 {
+						c.Violation(f.sig, f.what, nil)
+						continue
+					}
+					w := witness{Mode: "encode", Text: string(enc), Expected: encodeValue(v), Error: eres.errText, Diags: eres.diags, CaseSeed: seed, Kind: f.kind}
+					if f.d != nil {
+						w.Path, w.ExpAt, w.ObsAt = f.d.path.String(), f.d.exp, f.d.obs
+					}
+					c.Violation(f.sig, "written by gohcl.EncodeIntoBody and loaded again: "+f.what, w)
+				}
+			}
 		}
 		c.SampleSome(5000, func() any {
 			t := string(bt.text)
@@ -547,6 +589,26 @@ func (e *env) replay(raw json.RawMessage) {
 		}
 		for _, f := range e.judgeRoundtrip(text, exp, spells, res, attrs) {
 			c.Violation(f.sig, f.what, w)
+		}
+	case "encode":
+		exp := reflect.New(rootType).Elem()
+		if err := decodeValue(w.Expected, exp); err != nil {
+			c.Inconclusive("replay: expected value not understood: " + err.Error())
+			return
+		}
+		var enc []byte
+		if pv, st := lib.Guard(func() {
+			f := hclwrite.NewEmptyFile()
+			gohcl.EncodeIntoBody(exp.Addr().Interface(), f.Body())
+			enc = f.Bytes()
+		}); pv != nil {
+			c.Violation("encode:"+lib.PanicSig(pv, st), fmt.Sprintf("gohcl.EncodeIntoBody panics on a valid configuration: %v", pv), w)
+			return
+		}
+		w.Text = string(enc)
+		eres := loadProfile(e.path, enc)
+		for _, f := range e.judgeRoundtrip(enc, exp, nil, eres, nil) {
+			c.Violation(encodeSig(f), "written by gohcl.EncodeIntoBody and loaded again: "+f.what, w)
 		}
 	case "mutant":
 		if w.Fault == nil {
